@@ -120,8 +120,7 @@ func (t *Task) prepForQueueing() (ok bool) {
 	}
 
 	if t.maxDelay != 0 {
-		t.executeAt = time.Now().Add(t.maxDelay)
-		t.addToSchedule(true)
+		t.addToSchedule(time.Now().Add(t.maxDelay), true)
 	}
 
 	return true
@@ -214,8 +213,7 @@ func (t *Task) Schedule(executeAt time.Time) *Task {
 		t.removeFromQueues()
 		t.executeAt = executeAt
 	} else {
-		t.executeAt = executeAt
-		t.addToSchedule(false)
+		t.addToSchedule(executeAt, false)
 	}
 	return t
 }
@@ -237,8 +235,7 @@ func (t *Task) Repeat(interval time.Duration) *Task {
 	}
 
 	t.repeat = interval
-	t.executeAt = time.Now().Add(t.repeat)
-	t.addToSchedule(false)
+	t.addToSchedule(time.Now().Add(t.repeat), false)
 	return t
 }
 
@@ -371,8 +368,7 @@ func (t *Task) executeWithLocking() {
 
 		// repeat?
 		if t.isActive() && t.repeat != 0 && t.executeAt.IsZero() {
-			t.executeAt = time.Now().Add(t.repeat)
-			t.addToSchedule(false)
+			t.addToSchedule(time.Now().Add(t.repeat), false)
 		}
 
 		// notify that we finished
@@ -404,14 +400,24 @@ func (t *Task) executeWithLocking() {
 	}
 }
 
-func (t *Task) addToSchedule(overtime bool) {
+// addToSchedule sets the execution time of the task and puts it at the
+// matching position of the schedule.
+func (t *Task) addToSchedule(executeAt time.Time, overtime bool) {
 	if !t.isActive() {
+		t.executeAt = executeAt
 		return
 	}
 
 	scheduleLock.Lock()
 	defer scheduleLock.Unlock()
 	// defer printTaskList(taskSchedule) // for debugging
+
+	// The schedule is ordered by executeAt: the time of a task that is part of
+	// the schedule only changes together with its position, under the schedule
+	// lock. Otherwise another task that is added in between is compared with
+	// the new time of an entry that still sits at its old position, and ends up
+	// in front of tasks that are due earlier.
+	t.executeAt = executeAt
 
 	if overtime {
 		// do not set to false
